@@ -60,6 +60,40 @@ impl DiagnosticItem {
     }
 }
 
+impl DiagnosticItem {
+    /// Bring a list of diagnostics into the order in which it is reported.
+    ///
+    /// Diagnostics are grouped by file (the base file first, the other files
+    /// by name, never by their random identifiers) and sorted by position
+    /// within each file. A diagnostic that would be displayed identically to
+    /// an earlier one is dropped: the same finding can be reached more than
+    /// once, for example from two functions that share code or from two
+    /// labels of the same function.
+    pub fn sort_for_display<T: crate::reader::FileReader>(
+        diagnostics: &mut Vec<DiagnosticItem>,
+        reader: &T,
+    ) {
+        let base = reader.get_base_file();
+        diagnostics.sort_by_cached_key(|item| {
+            (
+                Some(item.file) != base,
+                reader.get_filename(item.file),
+                item.file,
+                item.range.clone(),
+                item.title.clone(),
+                item.description.clone(),
+            )
+        });
+        diagnostics.dedup_by(|a, b| {
+            a.file == b.file
+                && a.range == b.range
+                && a.title == b.title
+                && a.description == b.description
+                && a.long_description == b.long_description
+        });
+    }
+}
+
 impl PartialEq for DiagnosticItem {
     fn eq(&self, other: &Self) -> bool {
         self.range == other.range && self.file == other.file
